@@ -5,5 +5,5 @@ CONSTANTS
   KeepHist = FALSE
 INIT GInit
 NEXT GNext
-INVARIANT NeverStopDropBusy
+INVARIANT NeverStopBusy
 CHECK_DEADLOCK FALSE
